@@ -15,8 +15,8 @@ CHECKS = {
    "Ed25519/TLS1.3 strength assumed; adversary limited to rustls' public traits + DER splicing (no malformed TLS records).",
    "DESIGN.md §4 C01", "E1 simnet + E3 component"),
  "C02": ("exploration",
-   "runtime monitor: offline history checker (unique ids) over simulated lossy/reordering/duplicating fabric",
-   "Hundreds to thousands of scenarios with 1-200 concurrent RPCs in both directions, bodies 0 B-4 MB (thorough 16 MB), random header maps/routes/statuses and randomised handler completion order under loss, duplication, reordering and black-outs; the merged call/return/start/finish history is checked for at-most-once, request integrity, response integrity and pairing.",
+   "runtime monitor: offline history checker (unique ids) over simulated lossy/reordering/duplicating fabric + real-socket multi-thread stress (thorough: also under AddressSanitizer)",
+   "Hundreds to thousands of scenarios with 1-200 concurrent RPCs in both directions, bodies 0 B-4 MB (thorough 16 MB), random header maps/routes/statuses and randomised handler completion order under loss, duplication, reordering and black-outs; the merged call/return/start/finish history is checked for at-most-once, request integrity, response integrity and pairing. The same oracle also judges a real-UDP-socket stress on a 6-worker runtime with connection churn; in the thorough tier the whole check is repeated under an ASan+LSan build (quinn-udp / ring FFI paths).",
    "Body equality on (length, 64-bit hash); QUIC retransmission is exercised, not specified.",
    "DESIGN.md §4 C02", "E1 simnet"),
  "C03": ("exploration",
@@ -25,13 +25,13 @@ CHECKS = {
    "One-hop topologies, no address migration.",
    "DESIGN.md §4 C03", "E1 simnet"),
  "C04": ("exploration",
-   "runtime monitor: snapshot+event replay vs. listing after every step; adversary duplicate connections",
-   "Random histories of dials, disconnects, restarts, partitions, cuts, loss bursts among 3-5 Networks plus an adversary that opens duplicate connections with one identity; after every step each node's synchronously drained subscription must reproduce peers() exactly, events must alternate per peer, and at quiescent points the adversary's un-closed connections to a node are exactly one iff it is listed.",
+   "runtime monitor: snapshot+event replay vs. listing after every step; adversary duplicate connections; exhaustive small operation sequences and two-thread linearizability of the peer table; real-socket drain-list-drain stress (thorough: also under AddressSanitizer)",
+   "Random histories of dials, disconnects, restarts, partitions, cuts, loss bursts among 3-5 Networks plus an adversary that opens duplicate connections with one identity; after every step each node's synchronously drained subscription must reproduce peers() exactly, events must alternate per peer, and at quiescent points the adversary's un-closed connections to a node are exactly one iff it is listed. Component level (hook on ActivePeers): every add/remove/disconnect sequence up to length 6 (thorough 7) on four connection shapes vs. a reference model, 8 writers + 4 drain-list-drain subscribers, and pairs of operations released on two threads whose combined result must equal one of the two sequential orders. Real-socket level: subscriber threads run drain-list-drain against Network::{subscribe,peers} during connection churn on a 6-worker runtime.",
    "'At every instant' is sampled after every harness step.",
    "DESIGN.md §4 C04", "E1 simnet"),
  "C05": ("exploration",
    "runtime monitor over simulated mutual dials + convergence/agreement oracle",
-   "Real mutual dials between two Networks with seeded start offsets, asymmetric latency, loss and duplication; the oracle checks listings, event sequences, RPCs in both directions, that both sides kept the same physical connection, a quiet period, and cross-scenario determinism of the survivor.",
+   "Real mutual dials between two Networks with seeded start offsets, asymmetric latency, loss and duplication; the oracle checks listings, event sequences, RPCs in both directions, that both sides kept the same physical connection, a quiet period, and cross-scenario determinism of the survivor. Component level: all 24 registration orders of the four connection objects of a mutual dial (two per side) through the real ActivePeers, plus the pure tie-break function over random identity pairs (antisymmetric, order-independent).",
    "Interleavings are those the seeded fabric produces (reported as distinct signatures), not an enumeration.",
    "DESIGN.md §4 C05", "E1 simnet"),
  "C06": ("exploration",
@@ -61,7 +61,7 @@ CHECKS = {
    "DESIGN.md §4 C12", "E1 simnet"),
  "C13": ("exploration",
    "runtime monitor: dial attempts read off the fabric tap over minutes-hours of virtual time",
-   "Class A: all High peers black-holed, never-dial entries present; attempts (first Initial per connection) checked for who/rotation/backoff spacing/in-flight cap/keeps-dialing bounds. Class B: reachable High peers; bounded success, re-dial after loss, recovery after k failures, no dial while connected.",
+   "Class A: all High peers black-holed, never-dial entries present; attempts (first Initial per connection) checked for who/rotation/backoff spacing/in-flight cap/keeps-dialing bounds. Class B: reachable High peers; bounded success, re-dial after loss, recovery after k failures, no dial while connected; explicit application dials are never counted against the background in-flight cap; multi-address peers rotate over their addresses.",
    "Liveness as the bounded-progress bounds of the statement; tick jitter included in bounds.",
    "DESIGN.md §4 C13", "E1 simnet"),
  "C14": ("exploration",
